@@ -109,6 +109,31 @@ def readInputFileAsIs (fs : FS) (dir : Option Str) (strict : Bool) (fn : Str) : 
   | none => .nodir
   | some d => readLatexFileAsIs fs d strict fn
 
+/-! ### The converter object over a history of calls
+
+`LatexNodes2Text` keeps two attributes for `\input`: `tex_input_directory` and `strict_input`;
+`set_tex_input_directory` overwrites both, `read_input_file` reads them and writes nothing. -/
+
+structure Conv where
+  dir : Option Str := none
+  strict : Bool := true
+
+inductive ConvOp
+  | setDir (d : Option Str) (strict : Bool)
+  | read (fn : Str)
+
+def Conv.step (fs : FS) (c : Conv) : ConvOp → Conv × Option InRes
+  | .setDir d s => ({ dir := d, strict := s }, none)
+  | .read fn => (c, some (readInputFile fs c.dir c.strict fn))
+
+/-- the object after a history of calls, and everything the calls returned -/
+def Conv.run (fs : FS) : Conv → List ConvOp → Conv × List (Option InRes)
+  | c, [] => (c, [])
+  | c, op :: ops =>
+    let r := c.step fs op
+    let rest := Conv.run fs r.1 ops
+    (rest.1, r.2 :: rest.2)
+
 /-! ### File system given by finite tables (what the harness records) -/
 
 structure FSTab where
